@@ -638,6 +638,13 @@ func (m *Model) lockWrapper(fn *ssa.Function) (lockID, bool) {
 			}
 		} else if isMethodCall(cc, "sync", "Mutex", "Unlock") {
 			okShape = false
+		} else if op, ok := m.lockOpOf(c); ok {
+			// a lock reached through an interface (the Locker of a condition variable)
+			if op.Acquire {
+				acq = append(acq, op)
+			} else {
+				okShape = false
+			}
 		}
 	})
 	if !okShape || len(acq) != 1 {
@@ -652,6 +659,20 @@ func (m *Model) wrapperReturnsRelease(fn *ssa.Function) bool {
 	for _, ret := range returnsOf(fn) {
 		if len(ret.Results) != 1 {
 			return false
+		}
+		// (an instantiation wrapper or a forwarding wrapper hands on what the inner wrapper returns)
+		if call, ok := ret.Results[0].(*ssa.Call); ok {
+			if w := call.Common().StaticCallee(); w != nil && w != fn {
+				if _, isW := m.lockWrapper(w); isW && m.wrapperReturnsRelease(w) {
+					continue
+				}
+			}
+		}
+		// (the Unlock method value of a lock held through an interface: the bound wrapper invokes it)
+		if mc, ok := ret.Results[0].(*ssa.MakeClosure); ok {
+			if f, ok := mc.Fn.(*ssa.Function); ok && f.Name() == "Unlock$bound" {
+				continue
+			}
 		}
 		ts := m.funcTargets(ret.Results[0])
 		if len(ts) != 1 || ts[0].Name() != "Unlock" {
